@@ -335,6 +335,25 @@ pub fn check_case(rep: &Reporter, res: &Res, cands: &[ResultTextSelection], refr
             return CaseOut { evals, expected: vec![], got, skipped: true };
         }
     };
+    // the oracle itself is checked against the documented definition (as in C13) so that this check does not follow a
+    // relation test that has gone wrong: separate signature family, the search comparison below still uses the test
+    {
+        let pos = op.positive();
+        for (c, v) in res.known.iter().zip(verdicts.iter()) {
+            let def = if refr.len() == 1 { crate::c13::pair_def(&pos, refr[0], *c, &res.text) } else { crate::c13::set_def(&pos, refr, &[*c], &res.text) };
+            if let Some(want_pos) = def {
+                let want = want_pos != op.negate;
+                if *v != want {
+                    rep.fail(
+                        &format!("oracle|{}|{}|test-vs-definition:got={}", if refr.len() == 1 { "sel" } else { "set" }, op.name(), v),
+                        ord,
+                        || format!("{}: the relation test of the reference against candidate {:?} gives {} but the documented definition says {}", detail_head(), c, v, want),
+                        || case_json(res, refr, op),
+                    );
+                }
+            }
+        }
+    }
     let equals_multi = op.rel == Rel::Equals && refr.len() > 1;
     // expected[i]: Some(true/false) or None = not pinned down
     let expected: Vec<Option<bool>> = res
@@ -484,9 +503,8 @@ fn plan(tier: Tier) -> Plan {
     };
     // a run of 12 whitespace characters: the whitespace modifier beyond the search window of 10
     texts.push(format!("a{}b", " ".repeat(12)));
-    if tier == Tier::Thorough {
-        texts.push("\u{e9}\u{3000} \u{1d11e}x \u{a0}y".to_string()); // multi-byte characters and non-ASCII whitespace
-    }
+    // multi-byte characters and non-ASCII whitespace
+    texts.push(tier.pick("\u{e9}\u{3000} \u{1d11e}x", "\u{e9}\u{3000} \u{1d11e}x \u{a0}y").to_string());
     Plan {
         texts_dense: texts,
         sparse_maxlen: tier.pick(6, 10),
